@@ -461,11 +461,17 @@ def run_check(mod, tier, seed, shards_override=None):
                 results[k] = c.recv()
             except EOFError:
                 results[k] = ("harness", "shard %d died without a result" % k)
+    if not pending:
+        # every shard has reported: give each the time to remove its scratch directories before it is ended
+        for p in procs:
+            p.join(20)
     for p in procs:
         if p.is_alive():
             p.terminate()
     for p in procs:
         p.join(5)
+    from .kit import env as _env
+    _env.sweep([p.pid for p in procs])
     if pending:
         print("HARNESS-ERROR property=%s watchdog expired after %ds (inconclusive)" % (mod.ID, hard_limit),
               file=sys.stderr)
